@@ -185,6 +185,14 @@ pub struct Card {
     read_stream: Option<u32>,
     write_block: u32,
     pub pre_erase: Option<u32>,
+    /// a card that really erases the announced number of blocks when the multiple-block write
+    /// starts (legal: their contents are undefined until written); off by default
+    pub honour_pre_erase: bool,
+    /// number of CMD0 frames the card sleeps through (no response at all) after every power-on
+    pub sleepy: u32,
+    sleepy_left: u32,
+    pre_erase_armed: Option<u32>,
+    pub erase_value: u8,
     // timing
     pub rng: Rng,
     pub max_ncr: u64,
@@ -245,6 +253,11 @@ impl Card {
             read_stream: None,
             write_block: 0,
             pre_erase: None,
+            honour_pre_erase: false,
+            sleepy: 0,
+            sleepy_left: 0,
+            pre_erase_armed: None,
+            erase_value: 0xFF,
             rng: Rng::from_parts(&[seed, 0x5D]),
             max_ncr: 8,
             max_access: 20,
@@ -445,6 +458,11 @@ impl Card {
         if cmd == 23 && !app {
             self.violate("C14.acmd-without-cmd55", "index 23 not directly preceded by CMD55".into());
         }
+        if cmd == 0 && self.sleepy_left > 0 {
+            // still waking up: the frame goes unanswered
+            self.sleepy_left -= 1;
+            return;
+        }
         match cmd {
             0 => {
                 self.powered_cmd0 = true;
@@ -572,6 +590,14 @@ impl Card {
                             _ => {
                                 self.write_block = b;
                                 self.rx = Rx::Token { multi: true };
+                                if let (true, Some(n)) = (self.honour_pre_erase, self.pre_erase_armed.take()) {
+                                    for k in 0..n.min(6000) {
+                                        let t = b as u64 + k as u64;
+                                        if t < self.nblocks {
+                                            self.mem.insert(t as u32, [self.erase_value; 512]);
+                                        }
+                                    }
+                                }
                             }
                         }
                     }
@@ -579,6 +605,7 @@ impl Card {
             }
             23 if app => {
                 self.pre_erase = Some(arg & 0x7F_FFFF);
+                self.pre_erase_armed = Some(arg & 0x7F_FFFF);
                 let r = self.r1();
                 self.queue_response(&[r]);
             }
@@ -781,6 +808,12 @@ impl Card {
         self.crc_on = false;
         self.ident.clear();
         self.expect_cmd0_next = true;
+        self.sleepy_left = self.sleepy;
+    }
+
+    pub fn set_sleepy(&mut self, n: u32) {
+        self.sleepy = n;
+        self.sleepy_left = n;
     }
 
     pub fn ring_dump(&self, n: usize) -> String {
